@@ -16,6 +16,7 @@ import (
 
 // Options are per-check engine settings (fixed across harnesses of a check).
 type Options struct {
+	QuiescentTimers bool // timers fire when (and only when) every goroutine is blocked; default: never
 	MaxDepth      int
 	Preemptions   int
 	MaxGoroutines int
